@@ -679,9 +679,18 @@ class RequestHandler(BaseProtocol, Generic[_Request]):
             # A response that failed to start may have left its framing
             # (chunking, compression, length) on the writer.
             request._payload_writer = StreamWriter(self, self._loop)
-            resp = Response(
-                status=exc.status, reason=exc.reason, text=exc.text, headers=exc.headers
-            )
+            text = exc.text
+            try:
+                resp = Response(
+                    status=exc.status, reason=exc.reason, text=text, headers=exc.headers
+                )
+            except UnicodeEncodeError:
+                # The text echoes a request value that could not be decoded.
+                assert text is not None
+                text = text.encode("ascii", "backslashreplace").decode("ascii")
+                resp = Response(
+                    status=exc.status, reason=exc.reason, text=text, headers=exc.headers
+                )
             resp._cookies = exc._cookies
             resp, reset = await self.finish_response(request, resp, start_time)
         except asyncio.CancelledError:
